@@ -46,10 +46,10 @@ func vSetup() {
 
 type vImporter struct {
 	root, pcapDir, idxDir, snapDir string
-	b       *Builder
-	readers []*index.Reader // oldest first
-	nextID  uint64
-	created []string // index file names in creation order
+	b                              *Builder
+	readers                        []*index.Reader // oldest first
+	nextID                         uint64
+	created                        []string // index file names in creation order
 	// statistics
 	restartReordered bool
 }
@@ -478,12 +478,13 @@ type vPlan struct {
 	Interval uint64  `json:"interval"` // packets between reassembly snapshots
 }
 
-func vSplit(rt *rapid.T, arrival []int) [][]int {
+func vSplit(rt *rapid.T, arrival []int, oneShotWeight int) [][]int {
 	var batches [][]int
 	cur := []int{arrival[0]}
-	mode := rapid.IntRange(0, 3).Draw(rt, "batching") // 0: one by one, 1: all at once, else generated
+	// 0: all at once, 1..3: one by one, else generated
+	mode := rapid.IntRange(1-oneShotWeight, 7).Draw(rt, "batching")
 	for _, c := range arrival[1:] {
-		split := mode == 0 || (mode > 1 && rapid.Bool().Draw(rt, "new batch"))
+		split := (mode >= 1 && mode <= 3) || (mode > 3 && rapid.Bool().Draw(rt, "new batch"))
 		if split {
 			batches = append(batches, cur)
 			cur = nil
@@ -529,7 +530,7 @@ func vTrafficLabels(c *vlib.Case, s *vtraffic.Scenario) vtraffic.Stats {
 	for _, cp := range s.Captures {
 		c.LabelIf(cp.PcapNG, "pcapng")
 		c.LabelIf(cp.Padding, "eth-padding")
-		c.Label("linktype:" + cp.LinkType.String())
+		c.Label("linktype:" + map[string]string{"1": "ethernet", "101": "raw", "228": "ipv4", "229": "ipv6"}[fmt.Sprint(int(cp.LinkType))])
 	}
 	for _, cv := range s.Conversations {
 		c.Label("close:" + cv.Feat.Close)
@@ -590,8 +591,10 @@ func vCheckClassification(res *vImportResult, before, after *vVisible) string {
 // ---------------------------------------------------------------------------------------------
 // C05
 
-// open findings: ids filed in known_findings.json (VERIF_OPEN_FINDINGS) plus, for
-// experiments before an entry is filed, VERIF_ASSUME_OPEN.
+// open findings: ids filed in known_findings.json under the property itself
+// (VERIF_OPEN_FINDINGS, set by the driver), under a property whose traffic is
+// reused (VERIF_ALSO_OPEN, set by bin/conf/C08.py) plus, for experiments before
+// an entry is filed, VERIF_ASSUME_OPEN.
 const (
 	vFindingSeqWrap      = "F-C05-tcp-seq-wrap-disorder"
 	vFindingSnapComplete = "F-C08-snapshot-forgets-closed-connection"
@@ -600,7 +603,7 @@ const (
 
 func vOpen() map[string]bool {
 	open := vlib.OpenFindings()
-	for _, f := range strings.Split(os.Getenv("VERIF_ASSUME_OPEN"), ",") {
+	for _, f := range strings.Split(os.Getenv("VERIF_ASSUME_OPEN")+","+os.Getenv("VERIF_ALSO_OPEN"), ",") {
 		if f != "" {
 			open[f] = true
 		}
@@ -617,6 +620,7 @@ func vC05Config(open map[string]bool) vtraffic.Config {
 func vC08Config(open map[string]bool) vtraffic.Config {
 	cfg := vC05Config(open)
 	cfg.AvoidCutAfterSecondFin = open[vFindingSnapComplete]
+	cfg.MinCaptures = 2 // arrival order and batching need at least two files
 	return cfg
 }
 
@@ -651,7 +655,7 @@ func TestVerifC05(t *testing.T) {
 		for i := range s.Captures {
 			plan.Arrival = append(plan.Arrival, i)
 		}
-		plan.Batches = vSplit(rt, plan.Arrival)
+		plan.Batches = vSplit(rt, plan.Arrival, 2)
 		vRestarts(rt, plan)
 		c.Render(func() any { return map[string]any{"traffic": s.Render(), "plan": plan} })
 		st := vTrafficLabels(c, s)
@@ -778,7 +782,7 @@ func TestVerifC08(t *testing.T) {
 		if len(sel) > 1 && rapid.IntRange(0, 3).Draw(rt, "arrival") != 0 {
 			plan.Arrival = rapid.Permutation(sel).Draw(rt, "arrival order")
 		}
-		plan.Batches = vSplit(rt, plan.Arrival)
+		plan.Batches = vSplit(rt, plan.Arrival, 1)
 		if open[vFindingStaleSplit] && vHoleFilledLater(s, plan) {
 			// steer away: same batch sizes, chronological arrival (holes are then never filled later)
 			c.Count("excluded_known", 1)
@@ -958,7 +962,7 @@ func TestVerifC08Large(t *testing.T) {
 	vSetup()
 	open := vOpen()
 	vlib.Check(t, "C08", func(rt *rapid.T, c *vlib.Case) {
-		cfg := vtraffic.LargeConfig(rapid.IntRange(120000, 250000).Draw(rt, "packets"))
+		cfg := vtraffic.LargeConfig(rapid.IntRange(150000, 300000).Draw(rt, "packets"))
 		cfg.AvoidSeqWrapDisorder = open[vFindingSeqWrap]
 		cfg.AvoidCutAfterSecondFin = open[vFindingSnapComplete]
 		s := vtraffic.Gen(cfg).Draw(rt, "traffic")
